@@ -74,7 +74,7 @@ def main():
         if sorted(results.keys()) != sorted(names[x] for x in want_sel) or len(called) != len(set(called)):
             bad("EachOnce:%s" % form, dict(case=c, keys=sorted(results.keys())))
         want_tot = c["tot"] * 1e6
-        want_fed = c["fed2"] / 200 * 1e6
+        want_fed = c["fed2"] / 400 * 1e6
         if popov is not None:
             # the documented numeric override of a table column applies to every country of the run: each is simulated with, and
             # therefore weighs, the overridden population
